@@ -393,8 +393,9 @@ fn shape_from_spans(route: &str, m: &Mis, r: &gy::RenderedYaml) -> Option<&'stat
         ("tab-after-closing-quote", "build-err", "TabIndentation") => true,
         ("compact-quoted-key-then-space", "build-err", "UnexpectedCharacter") => true,
         ("quote-inside-flow-plain", "build-err", "UnexpectedCharacter") => true,
-        ("root-anchor-then-comment", "build-err", "InconsistentIndentation" | "UnexpectedCharacter" | "KeyWithoutValue") => true,
-        ("root-block-scalar-reread", "build-err", "InconsistentIndentation" | "UnexpectedCharacter" | "KeyWithoutValue") => true,
+        // the document start is misread: whatever error follows is a consequence
+        ("root-anchor-then-comment", "build-err", _) => true,
+        ("root-block-scalar-reread", "build-err", _) => true,
         ("literal-hash-first-then-indented", "build-err", "InconsistentIndentation") => true,
         ("empty-value-then-col0-quoted-key", "walk", "null") => matches!(m.actual_str, Some((false, _))),
         ("empty-node-at-eof-len64", "walk", "null") => m.actual.contains("invalid cursor position"),
@@ -479,15 +480,11 @@ fn shape_tag(route: &str, m: &Mis, text: &[u8], stream: &[Y]) -> Option<&'static
         }
         // (2b) document-level anchor followed by a comment, reported as an indentation error
         //      further down (the comment was taken for the root scalar)
-        if matches!(&m.err, Some(YamlError::InconsistentIndentation { .. } | YamlError::UnexpectedCharacter { .. } | YamlError::KeyWithoutValue { .. }))
-            && root_anchor_then_comment(&lines_of(text))
-        {
+        if m.err.is_some() && root_anchor_then_comment(&lines_of(text)) {
             return Some("root-anchor-then-comment");
         }
         // (7b) the root block scalar finding below, surfacing as an error
-        if matches!(&m.err, Some(YamlError::InconsistentIndentation { .. } | YamlError::UnexpectedCharacter { .. } | YamlError::KeyWithoutValue { .. }))
-            && root_block_scalar_shape(&lines_of(text))
-        {
+        if m.err.is_some() && root_block_scalar_shape(&lines_of(text)) {
             return Some("root-block-scalar-reread");
         }
         // (6b) the literal-block finding below, surfacing as an indentation error
@@ -845,7 +842,7 @@ pub fn run(cx: &mut Ctx) {
     cx.check(
         "load-vs-model",
         RULE,
-        Budget { quick: 16_000, thorough: 600_000, max_len: 3000 },
+        Budget { quick: 20_000, thorough: 600_000, max_len: 3000 },
         |u, st| run_case(u, st, &o),
     );
     for cl in [
@@ -887,6 +884,7 @@ pub fn run(cx: &mut Ctx) {
         let mode_full = std::env::var("VH_YAML_DUMP_MODE").map(|m| m == "full").unwrap_or(false);
         let mut o = if mode_full { YOpts::full() } else { YOpts::py_compat() };
         o.max_depth = 40;
+        o.flow_comments = true; // valid YAML, checked by PyYAML although not in the default space
         DUMP_SEQ.store(0, Ordering::SeqCst);
         cx.check(
             "generator-selfcheck",
